@@ -39,7 +39,34 @@ def k2_batch(db, b):
     return SP.is_state(bt.get([b], 'state'), COMPLETE) == (tal.get([b, z3.IntVal(0)], 'n_completed').v == bt.get([b], 'n_jobs').v)
 
 
+def _new_groups_are_complete_and_empty(ctx):
+    """K2 at creation: a job group is born with no jobs, hence complete (`state = 'complete'`, `n_jobs = 0`); only a commit that
+    stages jobs reopens it.  Decided on the real INSERT of _create_job_group (front_end.py): the values bound to the columns
+    `state` and `n_jobs` are the literals 'complete' and 0 on every path."""
+    from vc import sqlparse as _sp, sqlast as _A
+
+    path = 'batch/batch/front_end/front_end.py'
+    tree = pyast.parse(core.read_repo(path))
+    fns = [n for n in pyast.walk(tree) if isinstance(n, (pyast.FunctionDef, pyast.AsyncFunctionDef)) and n.name == '_create_job_group']
+    if not fns:
+        raise core.Undecided('anchor-moved: _create_job_group')
+    ctx.under_contract(path, '_create_job_group (initial state of a job group)')
+    found = []
+    for call in pyast.walk(fns[0]):
+        if isinstance(call, pyast.Call) and call.args and isinstance(call.args[0], pyast.Constant) and isinstance(call.args[0].value, str) and 'INSERT INTO job_groups ' in call.args[0].value:
+            stn = _sp.parse_statements(call.args[0].value)[0]
+            vals = call.args[1] if len(call.args) > 1 else None
+            ok = isinstance(stn, _A.Insert) and stn.table == 'job_groups' and isinstance(vals, pyast.Tuple) and len(vals.elts) == len(stn.columns)
+            if ok:
+                cols = [c.strip('`') for c in stn.columns]
+                sv, nv = vals.elts[cols.index('state')], vals.elts[cols.index('n_jobs')]
+                ok = isinstance(sv, pyast.Constant) and sv.value == 'complete' and isinstance(nv, pyast.Constant) and nv.value == 0 and not isinstance(nv.value, bool)
+            found.append(ok)
+    ctx.add(core.decided('C06/_create_job_group/a-new-job-group-is-complete-with-no-jobs', bool(found) and all(found), repr(found), kind='scan'))
+
+
 def build(ctx):
+    _new_groups_are_complete_and_empty(ctx)
     ex = SP.proc_exec(inline_after=False)
     G = z3.Int('g_any')
     # ---------------- mark_job_complete
